@@ -2,6 +2,8 @@
 
 package tokens
 
+import "encoding/base64"
+
 // vp:check C20 quick configs=start:0|30|58|59;duration:1|2;gap:0|1|2 K=16 timeout=900 nowitness clock=fixed
 // vp:check C20 thorough configs=start:0|1|29|30|56|57|58|59;duration:1|2|3;gap:0|1|2|3 K=16 timeout=900 nowitness clock=fixed
 // vp_C20_expiry: a token validates against the issuing key and user until the requested number of seconds has elapsed.
@@ -81,5 +83,40 @@ func vp_C20_binding() {
 	vpAssert("appended-user-caveat-does-not-transfer-the-token", ValidateToken(asZ, tok2) != nil)
 	vpSleep(0)
 	vpAssert("garbage-refused", ValidateToken(op, "AAAA") != nil)
+	vpReach("done", true)
+}
+
+// vp:check C20 both K=400 timeout=900 clock=fixed codec=real
+// vp_C20_bytes: byte-level alterations of a token that leave its macaroon intact. The token text is the unpadded
+// URL-safe base64 of the macaroon's binary form; with the real codec interpreted (not the ideal one of the other
+// harnesses), a line break inserted at an arbitrary position, a line break appended, bytes appended behind the
+// macaroon (re-encoded), or a change to the unused low bits of the last character produce a different text that must
+// not validate: "any token that was altered is refused".
+func vp_C20_bytes() {
+	secret := []byte("secret-key-0001")
+	op := TokenOptions{ServerPrivateKey: secret, ServerName: "x", UserID: "@a:x", Duration: 60}
+	tok, err := GenerateLoginToken(op)
+	vpAssume(err == nil)
+	vpAssert("pristine-token-validates", ValidateToken(op, tok) == nil)
+	altered := tok
+	switch vpChoice("alteration", "newline-appended", "crlf-inserted", "bytes-appended", "padding-appended") {
+	case "newline-appended":
+		altered = tok + "\n"
+	case "crlf-inserted":
+		// any position: 4*q + r (two small solver-chosen numbers, so that each is enumerable)
+		q := vpNondetInt("position_quad", 0, len(tok)/4)
+		head, rest := tok[:4*q], tok[4*q:]
+		r := vpNondetInt("position_rest", 0, 3)
+		vpAssume(r <= len(rest))
+		altered = head + rest[:r] + "\r\n" + rest[r:]
+	case "bytes-appended":
+		bin, derr := base64.RawURLEncoding.DecodeString(tok)
+		vpAssume(derr == nil)
+		altered = base64.RawURLEncoding.EncodeToString(append(bin, []byte("junk")...))
+	case "padding-appended":
+		altered = tok + "="
+	}
+	vpAssume(altered != tok)
+	vpAssert("altered-token-refused", ValidateToken(op, altered) != nil)
 	vpReach("done", true)
 }
